@@ -85,3 +85,12 @@ Theorem C13_reply_ttl : forall md5 rx cfg fs st s buf now rnd c p,
     checkttl (o_ttl0 (cf_opt cfg)) (o_ttl1 (cf_opt cfg)) a1 = (ttlres, a2) /\ ttlres <> 0.
 Proof. exact reply_ttl_alive. Qed.
 Print Assumptions C13_reply_ttl.
+
+(* ---- a dynamically discovered server: addTTL and LoopPrevention returned by the lookup command take preference over the
+   template's (0 / 255 = not given there either: the global option applies, as for any server) *)
+From RSP Require Import Dyn Dyn_proofs.
+Theorem C13_dynamic_ttl : forall t l r, merge_dyn t l = Some r ->
+  d_addttl r = match l_addttl l with Some x => x | None => d_addttl t end /\
+  d_lp r = match l_lp l with Some x => x | None => d_lp t end.
+Proof. exact merge_dyn_ttl. Qed.
+Print Assumptions C13_dynamic_ttl.
